@@ -73,16 +73,42 @@ func findRegexes(repo string) ([]rxFound, error) {
 		return nil
 	})
 	sort.Strings(paths)
+	// package-level string constants / variables with a literal value, per package directory (a pattern may be given by name)
+	pkgConsts := map[string]map[string]ast.Expr{}
+	parsed := map[string]*ast.File{}
 	for _, p := range paths {
 		f, err := parser.ParseFile(fset, p, nil, 0)
 		if err != nil {
 			return nil, err
 		}
+		parsed[p] = f
+		m := pkgConsts[filepath.Dir(p)]
+		if m == nil {
+			m = map[string]ast.Expr{}
+			pkgConsts[filepath.Dir(p)] = m
+		}
+		for _, d := range f.Decls {
+			if gd, ok := d.(*ast.GenDecl); ok && (gd.Tok == token.CONST || gd.Tok == token.VAR) {
+				for _, sp := range gd.Specs {
+					if vs, ok := sp.(*ast.ValueSpec); ok {
+						for i, n := range vs.Names {
+							if i < len(vs.Values) {
+								m[n.Name] = vs.Values[i]
+							}
+						}
+					}
+				}
+			}
+		}
+	}
+	for _, p := range paths {
+		f := parsed[p]
 		rel, _ := filepath.Rel(filepath.Join(repo, "klog"), p)
 		pkg := strings.TrimSuffix(filepath.ToSlash(filepath.Dir(rel)), "/")
 		if pkg == "." {
 			pkg = "klog"
 		}
+		consts := pkgConsts[filepath.Dir(p)]
 		isMustCompile := func(c *ast.CallExpr) (string, bool) {
 			sel, ok := c.Fun.(*ast.SelectorExpr)
 			if !ok || (sel.Sel.Name != "MustCompile" && sel.Sel.Name != "Compile") {
@@ -94,13 +120,9 @@ func findRegexes(repo string) ([]rxFound, error) {
 			if len(c.Args) != 1 {
 				return "", false
 			}
-			lit, ok := c.Args[0].(*ast.BasicLit)
-			if !ok || lit.Kind != token.STRING {
-				return "?", true // a pattern that is not a literal: reported as untranslatable
-			}
-			s, err := strconv.Unquote(lit.Value)
-			if err != nil {
-				return "?", true
+			s, ok := constString(c.Args[0], consts)
+			if !ok {
+				return "?", true // a pattern that is not a constant string: reported as untranslatable
 			}
 			return s, true
 		}
@@ -147,6 +169,40 @@ func findRegexes(repo string) ([]rxFound, error) {
 		}
 	}
 	return res, nil
+}
+
+// constString evaluates a constant string expression: literals, names of package-level constants, `+`, parentheses.
+func constString(e ast.Expr, consts map[string]ast.Expr) (string, bool) {
+	return constStringN(e, consts, 0)
+}
+
+func constStringN(e ast.Expr, consts map[string]ast.Expr, depth int) (string, bool) {
+	if depth > 20 {
+		return "", false
+	}
+	switch x := e.(type) {
+	case *ast.BasicLit:
+		if x.Kind != token.STRING {
+			return "", false
+		}
+		s, err := strconv.Unquote(x.Value)
+		return s, err == nil
+	case *ast.ParenExpr:
+		return constStringN(x.X, consts, depth+1)
+	case *ast.Ident:
+		if v, ok := consts[x.Name]; ok {
+			return constStringN(v, consts, depth+1)
+		}
+		return "", false
+	case *ast.BinaryExpr:
+		if x.Op != token.ADD {
+			return "", false
+		}
+		a, ok1 := constStringN(x.X, consts, depth+1)
+		b, ok2 := constStringN(x.Y, consts, depth+1)
+		return a + b, ok1 && ok2
+	}
+	return "", false
 }
 
 type rset [][2]rune // sorted, disjoint, non-adjacent inclusive ranges
@@ -368,7 +424,14 @@ func genRegexes() string {
 		sb.WriteString(fmt.Sprintf("def %s_unsupported : List String := [%s]\n\n", f.name, strings.Join(mapS(uns, leanStr), ", ")))
 		names = append(names, leanStr(f.name))
 	}
-	sb.WriteString("def regexNames : List String := [" + strings.Join(names, ", ") + "]\n\nend KlogV.Gen\n")
+	sb.WriteString("def regexNames : List String := [" + strings.Join(names, ", ") + "]\n\n")
+	// all of them as one list: the ties look a pattern up by its LANGUAGE, not by its name, so that renaming or moving a
+	// pattern in the Go code does not break them
+	var all []string
+	for _, f := range found {
+		all = append(all, fmt.Sprintf("(%s, %s, %s_anchors, %s_unsupported)", leanStr(f.name), f.name, f.name, f.name))
+	}
+	sb.WriteString("def allRegexes : List (String × Re × (Bool × Bool) × List String) :=\n  [" + strings.Join(all, ",\n   ") + "]\n\nend KlogV.Gen\n")
 	return sb.String()
 }
 
